@@ -215,7 +215,7 @@ func wlStreamDir(c *Ctx, out *raceWorkerOut, secrets bool) {
 		sendRes := make([]string, len(sendPlan))
 		sendFrames := make([]int, len(sendPlan)) // frames on the wire after each op
 		recvRes := make([]string, len(recvPlan))
-		ctx, cancel := context.WithTimeout(context.Background(), 5*time.Second)
+		ctx, cancel := context.WithTimeout(context.Background(), 30*time.Second) // backstop only: in-memory, nothing waits for a peer
 		var wg sync.WaitGroup
 		wg.Add(2)
 		go func() { // sender
@@ -311,7 +311,7 @@ func wlStreamDir(c *Ctx, out *raceWorkerOut, secrets bool) {
 		}
 		var gots []got
 		peerOK := true
-		rctx, rcancel := context.WithTimeout(context.Background(), 3*time.Second)
+		rctx, rcancel := context.WithTimeout(context.Background(), 30*time.Second) // backstop only: the frames are already buffered
 		for range frames {
 			d, fl, err := B.ReceiveFrameWithEnd(rctx)
 			if err != nil {
